@@ -953,12 +953,17 @@ Qed.
 
 Lemma init_state_inv s0 : Inv (init_state s0).
 Proof.
-  split; [|cbn; repeat split].
-  constructor; cbn; try constructor; try (intros; contradiction).
-  - intros i Hi. lia.
-  - intros y [].
-  - constructor.
-  - split; [constructor|]. intros ep. split; intros [].
+  split.
+  - constructor; unfold init_state; cbn [heap downq detached servers next_nid reqs length map app dnids].
+    + intros i Hi. lia.
+    + constructor.
+    + constructor.
+    + intros y [].
+    + intros x b [].
+    + intros r x [].
+    + intros x [].
+    + split; [constructor|]. split; [constructor|]. intros ep. split; intros [].
+  - unfold Gate, init_state. cbn [init_done heap servers downq detached reqs]. repeat split; reflexivity.
 Qed.
 
 Lemma inv_step s lb : Inv s -> Inv (fst (step s lb)).
@@ -967,7 +972,7 @@ Proof.
   - (* Init *)
     unfold do_init. unfold Gate in G. destruct (init_done s) eqn:I; [cbn [fst]; split; [exact C|unfold Gate; rewrite I; exact G]|].
     destruct G as (G1 & G2 & G3 & G4 & G5).
-    destruct (do_notifs (set_gate s [] false (blocked s)) (map NJoin snapshot)) as [s1 ev1] eqn:D1.
+    destruct (do_notifs (set_gate s [] false (blocked s)) (map NJoin snap)) as [s1 ev1] eqn:D1.
     destruct (do_notifs (set_gate s1 (servers s1) true []) (blocked s1)) as [s2 ev2] eqn:D2.
     cbn [fst].
     assert (C0 : Core (set_gate s [] false (blocked s))) by (apply core_set_gate; [exact C|symmetry; exact G2]).
@@ -979,12 +984,12 @@ Proof.
     unfold do_notify. unfold Gate in G. destruct (init_done s) eqn:I.
     + destruct (do_notif s (NJoin ep)) as [s1 ev] eqn:D. cbn [fst]. split; [eapply core_notif; eassumption|].
       destruct (notif_gate _ _ _ _ D) as [A1 A2]. unfold Gate. rewrite A1, I, A2. exact G.
-    + cbn [fst]. split; [apply core_set_gate; [exact C|reflexivity]|]. unfold Gate. cbn. rewrite I. exact G.
+    + cbn [fst]. split; [apply core_set_gate; [exact C|reflexivity]|]. unfold Gate, set_gate. cbn [init_done heap servers downq detached reqs]. exact G.
   - (* Leave *)
     unfold do_notify. unfold Gate in G. destruct (init_done s) eqn:I.
     + destruct (do_notif s (NLeave ep)) as [s1 ev] eqn:D. cbn [fst]. split; [eapply core_notif; eassumption|].
       destruct (notif_gate _ _ _ _ D) as [A1 A2]. unfold Gate. rewrite A1, I, A2. exact G.
-    + cbn [fst]. split; [apply core_set_gate; [exact C|reflexivity]|]. unfold Gate. cbn. rewrite I. exact G.
+    + cbn [fst]. split; [apply core_set_gate; [exact C|reflexivity]|]. unfold Gate, set_gate. cbn [init_done heap servers downq detached reqs]. exact G.
   - (* Dispatch *)
     destruct (do_dispatch s) as [s1 o] eqn:D. cbn [fst]. split; [eapply core_dispatch; eassumption|].
     unfold do_dispatch in D. unfold Gate in *. destruct (init_done s) eqn:I; cbn [negb] in D; [|inversion D; subst; rewrite I; exact G].
@@ -1009,4 +1014,436 @@ Qed.
 Theorem inv_run : forall ls s, Inv s -> Inv (run s ls).
 Proof.
   induction ls as [|lb r IH]; intros s H; cbn [run]; [exact H|]. apply IH. apply inv_step. exact H.
+Qed.
+
+(* ============================================================================================ *)
+(* 6. what a dispatch chooses (C03)                                                              *)
+(* ============================================================================================ *)
+
+Lemma in_map_nid_node l x : In x (map nid l) -> exists y, In y l /\ nid y = x.
+Proof. intros H. apply in_map_iff in H as (y & E & Hy). exists y. split; assumption. Qed.
+
+Lemma dispatch_choice s s' n ep ev :
+  Core s -> do_dispatch s = (s', (RSent n ep, ev)) ->
+  (exists y, In y (heap s) /\ nid y = n /\ nep y = ep) /\
+  (lookup_chan s n = ST_OPEN ->
+     forall m, In m (map nid (heap s)) -> lookup_chan s m = ST_OPEN -> out_of (reqs s) n <= out_of (reqs s) m) /\
+  (lookup_chan s n <> ST_OPEN ->
+     forall m, In m (map nid (heap s)) -> lookup_chan s m = ST_OPEN -> Penalty <= out_of (reqs s) m) /\
+  (forall e, In e ev -> exists p, e = EUp p \/ e = EDown p).
+Proof.
+  intros C D. unfold do_dispatch in D.
+  destruct (negb (init_done s)); [inversion D|].
+  destruct (heap s) as [|h0 t0] eqn:Eh; [inversion D|]. rewrite <- Eh in *.
+  assert (Hlen : (1 <= length (heap s))%nat) by (rewrite Eh; cbn; lia).
+  destruct (get (S (length (heap s))) (lookup_chan s) (heap s) (downq s)) as [[[l1 dq1] ev1]|] eqn:G; [|inversion D].
+  inversion D; subst n ep ev1. clear D H0.
+  destruct (get_spec (reqs s) _ _ _ _ _ _ _ G Hlen (core_HS s C)) as (H1 & P1 & D1 & Q1 & Rt & Ev).
+  destruct H1 as (Hok & Hnd & Hdq & Hc).
+  assert (L1 : length l1 = length (heap s)) by (apply len_ids; exact P1).
+  set (r := H_at l1 1%nat) in *.
+  assert (Hr1 : (1 <= 1 <= length l1)%nat) by lia.
+  assert (Hrin : In r l1) by (apply in_F; exact Hr1).
+  (* every node of the heap has a twin in l1 with the same nid and endpoint *)
+  assert (Tw : forall y, In y l1 -> exists z, In z (heap s) /\ nid z = nid y /\ nep z = nep y).
+  { intros y Hy. assert (Hi : In (nid y, nep y) (ids (heap s))).
+    { eapply Permutation_in; [exact P1|]. unfold ids. apply in_map_iff. exists y. split; [reflexivity|exact Hy]. }
+    unfold ids in Hi. apply in_map_iff in Hi as (z & E & Hz). inversion E. exists z. repeat split; assumption. }
+  assert (Min : forall y, In y l1 -> load r <= load y).
+  { intros y Hy. apply in_pos in Hy as (p & Hp & ->). apply (ok_root_min node load (F l1) (length l1) Hok p Hp). }
+  split; [destruct (Tw r Hrin) as (z & Z1 & Z2 & Z3); exists z; repeat split; assumption|].
+  split; [|split; [|exact Ev]].
+  - intros Hopen m Hm Hmo.
+    assert (Hm1 : In m (map nid l1)) by (eapply in_nid_ids; eassumption).
+    apply in_map_nid_node in Hm1 as (y & Hy & <-).
+    change (lookup_chan s (nid r) = ST_OPEN) in Hopen.
+    assert (Hrq : ~ In (nid r) dq1) by (intros H; apply D1 in H as [_ H]; contradiction).
+    assert (Hyq : ~ In (nid y) dq1) by (intros H; apply D1 in H as [_ H]; contradiction).
+    pose proof (Min y Hy) as Hle. rewrite (Hc r Hrin), (Hc y Hy) in Hle.
+    rewrite (pen_notin dq1 _ Hrq), (pen_notin dq1 _ Hyq) in Hle.
+    change (out_of (reqs s) (nid r) <= out_of (reqs s) (nid y)). lia.
+  - intros Hdown m Hm Hmo.
+    assert (Hm1 : In m (map nid l1)) by (eapply in_nid_ids; eassumption).
+    apply in_map_nid_node in Hm1 as (y & Hy & <-).
+    assert (Hyq : ~ In (nid y) dq1) by (intros H; apply D1 in H as [_ H]; contradiction).
+    pose proof (Min y Hy) as Hle. rewrite (Hc y Hy), (pen_notin dq1 _ Hyq) in Hle.
+    change (lookup_chan s (nid r) <> ST_OPEN) in Hdown.
+    change (lookup_chan s (nid r) = ST_OPEN \/ 0 <= load r) in Rt.
+    destruct Rt as [Rt|Rt]; [contradiction|]. pose proof (Min y Hy). unfold Idle, Penalty in *. lia.
+Qed.
+
+(* ============================================================================================ *)
+(* 7. events: warnings and Close() calls (C04)                                                   *)
+(* ============================================================================================ *)
+
+Definition reachable (s : state) : Prop := exists s0 ls, s = run (init_state s0) ls.
+
+Lemma reachable_inv s : reachable s -> Inv s.
+Proof. intros (s0 & ls & ->). apply inv_run. apply init_state_inv. Qed.
+
+Lemma reachable_step s lb : reachable s -> reachable (fst (step s lb)).
+Proof.
+  intros (s0 & ls & ->). exists s0, (ls ++ [lb]).
+  generalize (init_state s0) as st.
+  induction ls as [|a r IH]; intros st; cbn [run app]; [reflexivity|apply IH].
+Qed.
+
+Lemma dispatch_events s s' res ev : Core s -> do_dispatch s = (s', (res, ev)) ->
+  forall e, In e ev -> exists p, e = EUp p \/ e = EDown p.
+Proof.
+  intros C D. destruct res; try (unfold do_dispatch in D; destruct (negb (init_done s)); [inversion D; subst; intros e []|];
+    destruct (heap s); [inversion D; subst; intros e []|];
+    destruct (get _ _ _ _) as [[[l1 dq1] ev1]|]; inversion D; subst; intros e []).
+  eapply dispatch_choice; eassumption.
+Qed.
+
+(* Close() at removal: at once iff the node is idle or penalised *)
+Lemma remove_events s ep s' ev : Core s -> do_remove_server s ep = (s', ev) ->
+  (~ In ep (map nep (heap s)) -> ev = [] /\ detached s' = detached s) /\
+  (forall y, In y (heap s) -> nep y = ep ->
+     detached s' = (y, memz (nid y) (downq s)) :: detached s /\
+     ev = if (out_of (reqs s) (nid y) =? 0) && negb (memz (nid y) (downq s))
+             || memz (nid y) (downq s) || (Penalty <=? out_of (reqs s) (nid y))
+          then [EClose (nid y)] else []).
+Proof.
+  intros C D. unfold do_remove_server in D. destruct (c_srv s C) as (S1 & S2 & S3).
+  destruct (pos_of_ep (heap s) ep) as [i|] eqn:P.
+  - apply pos_of_ep_some in P as [Hi Hep]. inversion D; subst s' ev. clear D. cbn [detached].
+    split; [intros H; exfalso; apply H; rewrite <- Hep; apply in_map; apply in_F; exact Hi|].
+    intros y Hy Hyep.
+    assert (E : y = H_at (heap s) i).
+    { apply in_pos in Hy as (p & Hp & ->). unfold H_at. f_equal.
+      destruct p as [|p]; [lia|]. destruct i as [|i]; [lia|]. f_equal. cbn [to_fun] in *.
+      rewrite NoDup_nth with (d := nep dummy) in S2. apply S2; rewrite ?map_length; try lia.
+      rewrite !map_nth. congruence. }
+    rewrite <- E. split; [reflexivity|].
+    rewrite (c_cons s C y Hy). unfold pen. pose proof (out_nonneg (reqs s) (nid y)) as Ho.
+    destruct (memz (nid y) (downq s)); unfold Idle, Penalty in *.
+    + replace (0 <=? -2147483647 + out_of (reqs s) (nid y) + 2147483647) with true by lia.
+      rewrite orb_true_r. cbn [orb andb negb]. rewrite orb_true_r. reflexivity.
+    + cbn [negb]. rewrite andb_true_r, orb_false_r.
+      destruct (Z.eqb_spec (out_of (reqs s) (nid y)) 0) as [E0|E0].
+      * rewrite E0. reflexivity.
+      * replace (-2147483647 + out_of (reqs s) (nid y) + 0 =? -2147483647) with false by lia.
+        cbn [orb]. destruct (Z.leb_spec 2147483647 (out_of (reqs s) (nid y)));
+          [replace (0 <=? -2147483647 + out_of (reqs s) (nid y) + 0) with true by lia
+          |replace (0 <=? -2147483647 + out_of (reqs s) (nid y) + 0) with false by lia]; reflexivity.
+  - apply pos_of_ep_none in P. inversion D; subst s' ev. clear D. cbn [detached].
+    split; [intros _; split; reflexivity|]. intros y Hy Hyep. exfalso. apply P. rewrite <- Hyep. apply in_map. exact Hy.
+Qed.
+
+Lemma add_events s ep s' ev : do_add_server s ep = (s', ev) ->
+  detached s' = detached s /\ forall e, In e ev -> e = ECreate (next_nid s) ep.
+Proof.
+  unfold do_add_server. destruct (memz ep (servers s)); intros D; inversion D; subst; cbn [detached].
+  - split; [reflexivity|intros e []].
+  - split; [reflexivity|]. intros e [<-|[]]. reflexivity.
+Qed.
+
+Lemma dnids_unique d a b a' b' : NoDup (dnids d) -> In (a, b) d -> In (a', b') d -> nid a = nid a' -> (a, b) = (a', b').
+Proof.
+  induction d as [|[y c] t IH]; intros ND H1 H2 E; [destruct H1|].
+  cbn [dnids map fst] in ND. inversion ND as [|? ? Hn ND']; subst.
+  destruct H1 as [H1|H1]; destruct H2 as [H2|H2].
+  - congruence.
+  - exfalso. apply Hn. inversion H1; subst. rewrite E. eapply in_dnids. exact H2.
+  - exfalso. apply Hn. inversion H2; subst. rewrite <- E. eapply in_dnids. exact H1.
+  - apply IH; assumption.
+Qed.
+
+(* Close() at completion: exactly when the last outstanding request of a departed, unpenalised node completes *)
+Lemma put_events s rid x j s' res ev :
+  Core s -> find_req (reqs s) rid = Some (x, false) ->
+  do_put (set_reqs s (mark_done (reqs s) rid)) x j = (s', (res, ev)) ->
+  (In x (map nid (heap s)) -> ev = [] /\ detached s' = detached s) /\
+  (forall nd b, In (nd, b) (detached s) -> nid nd = x ->
+     res = RPut false /\ dnids (detached s') = dnids (detached s) /\
+     ev = if (out_of (reqs s) x =? 1) && negb b then [EClose x] else []).
+Proof.
+  intros C Fr D.
+  pose proof (find_req_in _ _ _ _ Fr) as Hin.
+  pose proof (out_pos _ _ _ Hin) as Hpos.
+  destruct (core_HS s C) as (Hok & Hnd & Hdq & Hc).
+  unfold do_put in D. cbn [heap set_reqs detached] in D.
+  destruct (pos_of_nid (heap s) x) as [i|] eqn:P.
+  - apply pos_of_nid_some in P as [Hi Hx]. split.
+    + intros _.
+      assert (Hload : load (H_at (heap s) i) = Idle + out_of (reqs s) x + pen (downq s) x).
+      { unfold H_at. rewrite (Hc _ (in_F _ _ Hi)). rewrite Hx. reflexivity. }
+      pose proof (pen_nonneg (downq s) x) as Hpen.
+      rewrite (clamp_ge (load (H_at (heap s) i) - 1)) in D by lia.
+      destruct ((load (H_at (heap s) i) - 1 =? Idle) && _); [destruct ((1 <=? j) && _)|];
+        inversion D; subst; cbn [detached set_heap set_reqs]; split; reflexivity.
+    + intros nd b Hd Hn. exfalso. eapply (nodup_disj _ _ x (c_nodup s C)).
+      * rewrite <- Hx. apply nid_F_in. exact Hi.
+      * rewrite <- Hn. eapply in_dnids. exact Hd.
+  - apply pos_of_nid_none in P. split; [intros H; contradiction|].
+    intros nd b Hd Hn.
+    destruct (put_detached (detached s) x) as [[d' ev']|] eqn:Pd.
+    + inversion D; subst s' res ev. clear D. cbn [detached set_detached].
+      assert (NDd : NoDup (dnids (detached s))).
+      { pose proof (c_nodup s C) as H. apply nodup_app_r in H. exact H. }
+      destruct (put_detached_spec _ _ _ _ Pd NDd) as (E1 & nd1 & b1 & I1 & I2 & I3 & I4).
+      (* the entry with nid x is unique *)
+      assert (E : (nd1, b1) = (nd, b)).
+      { eapply dnids_unique; try eassumption. congruence. }
+      inversion E; subst nd1 b1.
+      pose proof (c_dcons s C nd b Hd) as Hload. rewrite Hn in Hload.
+      assert (Hb : 0 <= (if b then Penalty else 0)) by (unfold Penalty; destruct b; lia).
+      rewrite (clamp_ge (load nd - 1)) in I3 by lia. cbn [fst snd app] in I3.
+      split; [reflexivity|]. split; [exact E1|]. rewrite I3.
+      destruct b; unfold Idle, Penalty in *; cbn [negb].
+      * rewrite andb_false_r. replace (load nd - 1 =? -2147483647) with false by lia. reflexivity.
+      * rewrite andb_true_r. destruct (Z.eqb_spec (out_of (reqs s) x) 1);
+          [replace (load nd - 1 =? -2147483647) with true by lia|replace (load nd - 1 =? -2147483647) with false by lia]; reflexivity.
+    + exfalso. eapply put_detached_none; [exact Pd|]. rewrite <- Hn. eapply in_dnids. exact Hd.
+Qed.
+
+(* ============================================================================================ *)
+(* 8. __Get terminates: every iteration that does not return marks one more node down            *)
+(* ============================================================================================ *)
+
+Definition markable (chan : Z -> Z) (y : node) : bool := (load y <? 0) && negb (chan (nid y) =? ST_OPEN).
+Definition cnt (chan : Z -> Z) (l : list node) : nat := length (filter (markable chan) l).
+
+Lemma cnt_perm chan l l' : Permutation l l' -> cnt chan l = cnt chan l'.
+Proof.
+  unfold cnt. induction 1 as [|x l l' P IH|x y l|l l' l'' P1 IH1 P2 IH2]; cbn [filter].
+  - reflexivity.
+  - destruct (markable chan x); cbn [length]; congruence.
+  - destruct (markable chan x); destruct (markable chan y); reflexivity.
+  - congruence.
+Qed.
+
+Lemma cnt_le chan l : (cnt chan l <= length l)%nat.
+Proof. unfold cnt. induction l as [|x l IH]; cbn [filter length]; [lia|]. destruct (markable chan x); cbn [length]; lia. Qed.
+
+Lemma cnt_app chan a y b : cnt chan (a ++ y :: b) = (cnt chan a + (if markable chan y then 1 else 0) + cnt chan b)%nat.
+Proof. unfold cnt. rewrite filter_app, app_length. cbn [filter]. destruct (markable chan y); cbn [length]; lia. Qed.
+
+Lemma set_load_split l i v : (1 <= i <= length l)%nat ->
+  exists a b, l = a ++ F l i :: b /\ H_set_load l i v = a ++ set_load (F l i) v :: b.
+Proof.
+  intros Hi. destruct i as [|k]; [lia|].
+  destruct (nth_split l dummy (n := k)) as (a & b & E & La); [lia|].
+  exists a, b. cbn [to_fun]. split; [exact E|].
+  set (x := nth k l dummy) in *. set (c := set_load x v).
+  assert (Lc : length (a ++ c :: b) = length l) by (rewrite E, !app_length; reflexivity).
+  rewrite <- (of_fun_to_fun node dummy (a ++ c :: b)). rewrite Lc. unfold H_set_load.
+  apply of_fun_ext. intros p Hp. unfold upd. destruct p as [|q]; [lia|]. cbn [to_fun]. fold x. fold c.
+  destruct (Nat.eqb_spec (S q) (S k)) as [Eq|Ne].
+  - inversion Eq; subst q. rewrite app_nth2 by lia. rewrite La, Nat.sub_diag. reflexivity.
+  - rewrite E. destruct (Nat.lt_ge_cases q (length a)).
+    + rewrite !app_nth1 by lia. reflexivity.
+    + rewrite !app_nth2 by lia. destruct (q - length a)%nat as [|m] eqn:Em; [lia|reflexivity].
+Qed.
+
+Lemma cnt_set_load chan l i v : (1 <= i <= length l)%nat ->
+  (cnt chan (H_set_load l i v) + (if markable chan (F l i) then 1 else 0) =
+   cnt chan l + (if markable chan (set_load (F l i) v) then 1 else 0))%nat.
+Proof.
+  intros Hi. destruct (set_load_split l i v Hi) as (a & b & E1 & E2).
+  rewrite E2. rewrite E1 at 3. rewrite !cnt_app. lia.
+Qed.
+
+Lemma walk_cnt chan : forall dq l l' dq' ev, walk chan l dq = (l', dq', ev) -> cnt chan l' = cnt chan l.
+Proof.
+  induction dq as [|x r IH]; intros l l' dq' ev W; cbn [walk] in W; [inversion W; reflexivity|].
+  destruct (pos_of_nid l x) as [i|] eqn:P; [|eapply IH; exact W].
+  apply pos_of_nid_some in P as [Hi Hx].
+  destruct (chan x =? ST_OPEN) eqn:C.
+  - destruct (walk chan _ r) as [[l2 r'] ev'] eqn:W1. inversion W; subst l' dq' ev. rewrite (IH _ _ _ _ W1).
+    assert (Pf : Permutation (H_fix_up (H_set_load l i (load (H_at l i) - Penalty)) i) (H_set_load l i (load (H_at l i) - Penalty))) by (apply perm_fix_up; rewrite len_set_load; exact Hi).
+    rewrite (cnt_perm chan _ _ Pf).
+    pose proof (cnt_set_load chan l i (load (H_at l i) - Penalty) Hi) as E.
+    unfold markable in E. cbn [set_load nid] in E. rewrite Hx, C in E. cbn [negb] in E. rewrite !andb_false_r in E. lia.
+  - destruct (walk chan l r) as [[l2 r'] ev'] eqn:W1. inversion W; subst l' dq' ev. eapply IH. exact W1.
+Qed.
+
+Lemma mark_down_HS rs l1 dq1 :
+  HS rs l1 dq1 -> (1 <= length l1)%nat ->
+  let r := H_at l1 1%nat in
+  load r < 0 ->
+  HS rs (H_fix_down (H_set_load l1 1%nat (load r + Penalty)) 1%nat (length l1)) (nid r :: dq1) /\
+  0 <= load r + Penalty /\ ~ In (nid r) dq1.
+Proof.
+  intros (Hok & Hnd & Hdq & Hc) Hlen r Hrneg.
+  assert (Hr1 : (1 <= 1 <= length l1)%nat) by lia.
+  assert (Hrin : In r l1) by (apply in_F; exact Hr1).
+  assert (Hrdq : ~ In (nid r) dq1).
+  { intros Hin. rewrite (Hc r Hrin) in Hrneg. rewrite (pen_in dq1 _ Hin) in Hrneg.
+    pose proof (out_nonneg rs (nid r)). unfold Idle, Penalty in Hrneg. lia. }
+  set (l2 := H_fix_down (H_set_load l1 1%nat (load r + Penalty)) 1%nat (length l1)).
+  assert (P2 : Permutation (ids l2) (ids l1)) by (apply ids_fix_down_set; lia).
+  assert (L2 : length l2 = length l1) by (apply len_ids; exact P2).
+  split; [|split; [|exact Hrdq]].
+  - repeat split.
+    + rewrite L2. apply okl_set_down; [lia|exact Hok|]. fold (H_at l1 1%nat). fold r. unfold Penalty. lia.
+    + eapply nodup_ids; eassumption.
+    + constructor; assumption.
+    + eapply cons_perm; [apply perm_fix_down; [lia|rewrite len_set_load; lia]|].
+      eapply cons_set_load; try eassumption.
+      * intros y Hy. split; [reflexivity|]. apply pen_cons_ne. exact Hy.
+      * fold (H_at l1 1%nat). fold r. rewrite (Hc r Hrin). rewrite (pen_notin dq1 _ Hrdq).
+        rewrite (pen_in (nid r :: dq1) (nid r)) by (left; reflexivity). lia.
+  - pose proof (cons_ge_idle rs dq1 l1 r Hc Hrin). unfold Idle, Penalty in *. lia.
+Qed.
+
+Lemma get_none_cnt rs chan : forall fuel l dq,
+  HS rs l dq -> (1 <= length l)%nat -> get fuel chan l dq = None -> (fuel <= cnt chan l)%nat.
+Proof.
+  induction fuel as [|fu IH]; intros l dq H Hlen G; [lia|].
+  cbn [get] in G. destruct (walk chan l dq) as [[l1 dq1] ev1] eqn:W.
+  destruct (walk_spec rs chan dq [] l l1 dq1 ev1 W H) as (H1 & P1 & _ & _). cbn [app] in H1.
+  assert (L1 : length l1 = length l) by (apply len_ids; exact P1).
+  rewrite <- (walk_cnt chan _ _ _ _ _ W).
+  destruct ((chan (nid (H_at l1 1%nat)) =? ST_OPEN) || (0 <=? load (H_at l1 1%nat))) eqn:C; [discriminate|].
+  set (r := H_at l1 1%nat) in *.
+  assert (Hneg : load r < 0) by lia.
+  assert (Hl1 : (1 <= length l1)%nat) by lia.
+  destruct (mark_down_HS rs l1 dq1 H1 Hl1 Hneg) as (H2 & Hge & _). fold r in H2, Hge.
+  set (l2 := H_fix_down (H_set_load l1 1%nat (load r + Penalty)) 1%nat (length l1)) in *.
+  destruct (get fu chan l2 (nid r :: dq1)) as [[[l3 dq3] ev3]|] eqn:G2; [discriminate|].
+  assert (L2 : length l2 = length l1) by (unfold l2; rewrite len_fix_down, len_set_load; reflexivity).
+  pose proof (IH l2 (nid r :: dq1) H2 ltac:(lia) G2) as Hfu.
+  assert (Pf : Permutation l2 (H_set_load l1 1%nat (load r + Penalty))) by (apply perm_fix_down; [lia|rewrite len_set_load; lia]).
+  rewrite (cnt_perm chan _ _ Pf) in Hfu.
+  pose proof (cnt_set_load chan l1 1%nat (load r + Penalty) ltac:(lia)) as E.
+  fold (H_at l1 1%nat) in E. fold r in E. unfold markable in E. cbn [set_load load nid] in E.
+  replace (load r + Penalty <? 0) with false in E by lia.
+  replace (load r <? 0) with true in E by lia.
+  replace (chan (nid r) =? ST_OPEN) with false in E by lia. cbn [negb andb] in E. lia.
+Qed.
+
+Lemma dispatch_not_stuck s : Core s -> fst (snd (do_dispatch s)) <> RStuck.
+Proof.
+  intros C. unfold do_dispatch. destruct (negb (init_done s)); [discriminate|].
+  destruct (heap s) as [|h0 t0] eqn:Eh; [discriminate|]. rewrite <- Eh.
+  assert (Hlen : (1 <= length (heap s))%nat) by (rewrite Eh; cbn; lia).
+  destruct (get (S (length (heap s))) (lookup_chan s) (heap s) (downq s)) as [[[l1 dq1] ev]|] eqn:G; [discriminate|].
+  exfalso. pose proof (get_none_cnt (reqs s) _ _ _ _ (core_HS s C) Hlen G).
+  pose proof (cnt_le (lookup_chan s) (heap s)). lia.
+Qed.
+
+Lemma out_le_len rs m : out_of rs m <= Z.of_nat (length rs).
+Proof.
+  unfold out_of. induction rs as [|r t IH]; cbn [filter length]; [lia|].
+  destruct (undone m r); cbn [length]; lia.
+Qed.
+
+(* ============================================================================================ *)
+(* 9. shapes of event lists, departed nodes stay departed                                        *)
+(* ============================================================================================ *)
+
+Definition membership_event (e : event) : Prop := (exists n ep, e = ECreate n ep) \/ (exists n, e = EClose n).
+
+Lemma notif_ev_shape s nt s' ev : do_notif s nt = (s', ev) -> forall e, In e ev -> membership_event e.
+Proof.
+  destruct nt; cbn [do_notif].
+  - intros D e He. destruct (add_events _ _ _ _ D) as [_ H]. left. eexists. eexists. apply H. exact He.
+  - unfold do_remove_server. destruct (pos_of_ep (heap s) ep); intros D; inversion D; subst; [|intros e []].
+    destruct ((load _ =? Idle) || _); intros e; [intros [<-|[]]; right; eexists; reflexivity|intros []].
+Qed.
+
+Lemma notifs_ev_shape : forall l s s' ev, do_notifs s l = (s', ev) -> forall e, In e ev -> membership_event e.
+Proof.
+  induction l as [|nt r IH]; intros s s' ev D; cbn [do_notifs] in D; [inversion D; intros e []|].
+  destruct (do_notif s nt) as [s1 ev1] eqn:D1. destruct (do_notifs s1 r) as [s2 ev2] eqn:D2.
+  inversion D; subst. intros e He. apply in_app_iff in He as [He|He].
+  - eapply notif_ev_shape; eassumption.
+  - eapply IH; eassumption.
+Qed.
+
+Lemma step_no_warn s lb : Inv s -> ~ In EWarn (snd (snd (step s lb))).
+Proof.
+  intros [C G]. assert (Hm : forall e, membership_event e -> e <> EWarn).
+  { intros e [(n & ep & ->)|(n & ->)]; discriminate. }
+  destruct lb as [snap|ep|ep| |rid j|x st]; cbn [step].
+  - unfold do_init. destruct (init_done s); [intros []|].
+    destruct (do_notifs _ (map NJoin snap)) as [s1 ev1] eqn:D1.
+    destruct (do_notifs _ (blocked s1)) as [s2 ev2] eqn:D2. cbn [snd]. intros H. apply in_app_iff in H as [H|H].
+    + eapply Hm; [eapply notifs_ev_shape; [exact D1|exact H]|reflexivity].
+    + eapply Hm; [eapply notifs_ev_shape; [exact D2|exact H]|reflexivity].
+  - unfold do_notify. destruct (init_done s); [|intros []].
+    destruct (do_notif s (NJoin ep)) as [s1 ev] eqn:D. cbn [snd]. intros H.
+    eapply Hm; [eapply notif_ev_shape; [exact D|exact H]|reflexivity].
+  - unfold do_notify. destruct (init_done s); [|intros []].
+    destruct (do_notif s (NLeave ep)) as [s1 ev] eqn:D. cbn [snd]. intros H.
+    eapply Hm; [eapply notif_ev_shape; [exact D|exact H]|reflexivity].
+  - destruct (do_dispatch s) as [s1 [res ev]] eqn:D. cbn [snd]. intros H.
+    destruct (dispatch_events s s1 res ev C D _ H) as (p & [E|E]); discriminate.
+  - unfold do_complete. destruct (find_req (reqs s) rid) as [[x [|]]|] eqn:Fr; try (intros []).
+    destruct (do_put _ x j) as [s1 [res ev]] eqn:P.
+    destruct res; cbn [snd]; try (intros []);
+      (refine (proj2 (proj2 (core_put s rid x j _ _ _ C Fr P _))); discriminate).
+  - intros [].
+Qed.
+
+Lemma notif_detached s nt s' ev n : do_notif s nt = (s', ev) ->
+  In n (dnids (detached s)) -> In n (dnids (detached s')).
+Proof.
+  destruct nt; cbn [do_notif].
+  - intros D. destruct (add_events _ _ _ _ D) as [E _]. rewrite E. auto.
+  - unfold do_remove_server. destruct (pos_of_ep (heap s) ep); intros D; inversion D; subst; cbn [detached dnids map]; auto.
+    intros H. right. exact H.
+Qed.
+
+Lemma notifs_detached : forall l s s' ev n, do_notifs s l = (s', ev) ->
+  In n (dnids (detached s)) -> In n (dnids (detached s')).
+Proof.
+  induction l as [|nt r IH]; intros s s' ev n D; cbn [do_notifs] in D; [inversion D; subst; auto|].
+  destruct (do_notif s nt) as [s1 ev1] eqn:D1. destruct (do_notifs s1 r) as [s2 ev2] eqn:D2.
+  inversion D; subst. intros H. eapply IH; [exact D2|]. eapply notif_detached; eassumption.
+Qed.
+
+Lemma step_detached s lb n : Inv s -> In n (dnids (detached s)) -> In n (dnids (detached (fst (step s lb)))).
+Proof.
+  intros [C G] H. destruct lb as [snap|ep|ep| |rid j|x st]; cbn [step].
+  - unfold do_init. destruct (init_done s); [exact H|].
+    destruct (do_notifs _ (map NJoin snap)) as [s1 ev1] eqn:D1.
+    destruct (do_notifs _ (blocked s1)) as [s2 ev2] eqn:D2. cbn [fst].
+    eapply notifs_detached; [exact D2|]. cbn [set_gate detached].
+    eapply notifs_detached; [exact D1|]. exact H.
+  - unfold do_notify. destruct (init_done s); [|exact H].
+    destruct (do_notif s (NJoin ep)) as [s1 ev] eqn:D. cbn [fst]. eapply notif_detached; eassumption.
+  - unfold do_notify. destruct (init_done s); [|exact H].
+    destruct (do_notif s (NLeave ep)) as [s1 ev] eqn:D. cbn [fst]. eapply notif_detached; eassumption.
+  - unfold do_dispatch. destruct (negb (init_done s)); [exact H|]. destruct (heap s); [exact H|].
+    destruct (get _ _ _ _) as [[[l1 dq1] ev]|]; exact H.
+  - unfold do_complete. destruct (find_req (reqs s) rid) as [[x [|]]|] eqn:Fr; try exact H.
+    destruct (do_put _ x j) as [s1 [res ev]] eqn:P.
+    assert (E : dnids (detached s1) = dnids (detached s)).
+    { destruct (put_events s rid x j s1 res ev C Fr P) as [E1 E2].
+      pose proof (c_reqs s C _ _ (find_req_in _ _ _ _ Fr)) as Hk. apply in_app_iff in Hk as [Hk|Hk].
+      - destruct (E1 Hk) as [_ ->]. reflexivity.
+      - unfold dnids in Hk. apply in_map_iff in Hk as ([nd b] & En & Hd). cbn [fst] in En.
+        destruct (E2 nd b Hd En) as (_ & E & _). exact E. }
+    destruct res; cbn [fst]; try exact H; rewrite E; exact H.
+  - exact H.
+Qed.
+
+Lemma run_detached : forall ls s n, Inv s -> In n (dnids (detached s)) -> In n (dnids (detached (run s ls))).
+Proof.
+  induction ls as [|lb r IH]; intros s n I H; cbn [run]; [exact H|].
+  apply IH; [apply inv_step; exact I|apply step_detached; assumption].
+Qed.
+
+Lemma find_req_mark_done rs rid x d : find_req rs rid = Some (x, d) -> find_req (mark_done rs rid) rid = Some (x, true).
+Proof.
+  induction rs as [|[[r y] e] t IH]; cbn [find_req mark_done]; [discriminate|].
+  destruct (Z.eqb_spec r rid) as [->|Hne]; intros E.
+  - inversion E; subst. cbn [find_req]. rewrite Z.eqb_refl. reflexivity.
+  - cbn [find_req]. destruct (Z.eqb_spec r rid); [contradiction|]. apply IH. exact E.
+Qed.
+
+Lemma complete_marks s rid j s' b ev : do_complete s rid j = (s', (RPut b, ev)) ->
+  exists x, find_req (reqs s) rid = Some (x, false) /\ find_req (reqs s') rid = Some (x, true).
+Proof.
+  unfold do_complete. destruct (find_req (reqs s) rid) as [[x [|]]|] eqn:Fr; try solve [intros D0; inversion D0].
+  destruct (do_put _ x j) as [s1 [res ev1]] eqn:P. intros D.
+  assert (E : reqs s1 = mark_done (reqs s) rid).
+  { unfold do_put in P. cbn [heap set_reqs detached] in P. destruct (pos_of_nid (heap s) x).
+    - destruct (clamp _) as [v e0]. destruct ((v =? Idle) && _); [destruct ((1 <=? j) && _)|]; inversion P; reflexivity.
+    - destruct (put_detached (detached s) x) as [[d' e0]|]; inversion P; reflexivity. }
+  destruct res; inversion D; subst. exists x. split; [reflexivity|]. rewrite E. eapply find_req_mark_done. exact Fr.
 Qed.
